@@ -29,6 +29,7 @@ ConnInit == [open |-> FALSE, cclosed |-> FALSE, pclosed |-> FALSE,
              answered |-> 0,      \* newest key id whose genuine reply has been delivered (in order, nothing older after it)
              racy |-> FALSE,      \* replies were lost / forged / delivered out of order: client and device keys may differ (A1/A2)
              stray |-> 0,         \* messages delivered that nobody was waiting for (they sit in the client's queue)
+             straybad |-> 0,      \* ... those of them that are not valid data packets under the key the client holds
              authvalid |-> FALSE, \* a genuine handshake reply was accepted and the 12 h lifetime has not elapsed since
              hsfail |-> 0]        \* handshake requests written while ~authvalid (not yet genuinely answered)
 
@@ -41,6 +42,7 @@ MonInit == [ call |-> NoCall,
              mustHS |-> 0,         \* after the 12 h jump: next packet on this connection must be a handshake
              mustNew |-> 0,        \* after the lifetime jump: next packet must be a handshake on a connection newer than this
              prevFailed |-> FALSE,
+             hadGood |-> FALSE,    \* valid credentials were stored at some point (a failed exchange must not lose them: C08 recovery)
              bad |-> {} ]
 
 Flag(m, name) == [m EXCEPT !.bad = @ \cup {name}]
@@ -55,13 +57,16 @@ ValidReply(cls) == cls = "valid"
 CtrOK(last, ctr) == ctr = (last + 1) % CtrMod \/ (ctr = 0 /\ (last + 1) \in {4096, 65536})
 (* ---------------------------------------------------------------------------------------------- *)
 OnCall(m, e) ==
-  LET quiet == m.fly = 0 /\ (m.cur = 0 \/ m.conns[m.cur].stray = 0) IN
+  LET cnq == m.conns[m.cur]
+      (* nothing stale in flight; stale VALID data already queued is harmless (it is read before the request goes out); stale anything is
+         harmless when the exchange starts with a handshake (the queue is flushed first) or on a connection the client has to replace *)
+      quiet == m.fly = 0 /\ (m.cur = 0 \/ cnq.straybad = 0 \/ (Ver = 3 /\ ~cnq.authvalid) \/ cnq.pclosed \/ m.mustNew = m.cur) IN
   [ FlagIf(m, m.call.op # "none", <<"harness", "call while another call is active">>)
     EXCEPT !.call = [op |-> e.op, cr |-> e.cr, tx |-> 0, hs |-> 0, resp |-> FALSE, txAfterResp |-> FALSE,
                      benign |-> quiet, awaiting |-> FALSE, genuine |-> FALSE, everConnected |-> m.cur # 0, cancelled |-> FALSE,
                      lastk |-> 0,           \* key id under which the last data packet of this call was written
                      silent |-> TRUE,       \* nothing but silence from the network so far: no delivery, loss, close, refusal or cancellation
-                     canSucceed |-> Ver = 2 \/ (e.op = "send" /\ m.stored = "good")
+                     canSucceed |-> Ver = 2 \/ (e.op = "send" /\ (m.stored = "good" \/ m.hadGood))
                                     \/ (e.op = "auth" /\ (e.cr = "good" \/ (e.cr = "cached" /\ m.stored = "good")))] ]
 
 OnConnOK(m, e) ==
@@ -119,6 +124,7 @@ OnTx(m, e) ==
                         !.latest = IF isHS /\ e.k # 0 THEN e.k ELSE @,
                         !.racy = racy2,
                         !.stray = IF isHS THEN 0 ELSE @,           \* the client flushes its queue before a handshake request
+                        !.straybad = IF isHS THEN 0 ELSE @,
                         !.hsfail = IF isHS /\ ~cn.authvalid THEN @ + 1 ELSE @]
       call2 == IF m.call.op = "none" THEN m.call
                ELSE [m.call EXCEPT !.tx = IF isData THEN @ + 1 ELSE @, !.hs = IF isHS THEN @ + 1 ELSE @,
@@ -143,6 +149,7 @@ OnDeliver(m, e) ==
                         !.answered = IF genHS /\ e.live /\ awaited THEN e.k ELSE @,
                         !.racy = @ \/ (genHS /\ ~inOrder) \/ (genHS /\ ~awaited),
                         !.stray = IF e.live /\ ~awaited THEN @ + 1 ELSE @,
+                        !.straybad = IF e.live /\ ~awaited /\ ~(e.gen /\ e.m \in {"PKT", "ENC"} /\ (Ver = 2 \/ e.k = cn.answered)) THEN @ + 1 ELSE @,
                         !.authvalid = @ \/ (genHS /\ e.live /\ awaited),
                         !.hsfail = IF genHS /\ e.live /\ awaited THEN 0 ELSE @]
       call2 == IF m.call.op = "none" THEN m.call
@@ -202,7 +209,8 @@ OnRet(m, e) ==
                THEN {<<"C06", "authentication failed although the device's reply proved knowledge of the key">>} ELSE {}
   IN [ m EXCEPT !.bad = @ \cup b1 \cup b2 \cup b3 \cup b4 \cup b5 \cup b5b \cup b6 \cup b7 \cup b8 \cup b9 \cup b10 \cup b11 \cup b12 \cup b13 \cup b14 \cup b15,
                 !.call = NoCall, !.stored = e.stored, !.prevFailed = ~ok,
-                !.conns = [c \in 1..Len(m.conns) |-> IF c = m.cur /\ e.r = "frames" THEN [m.conns[c] EXCEPT !.stray = 0] ELSE m.conns[c]] ]
+                !.hadGood = @ \/ e.stored = "good",
+                !.conns = [c \in 1..Len(m.conns) |-> IF c = m.cur /\ e.r = "frames" THEN [m.conns[c] EXCEPT !.stray = 0, !.straybad = 0] ELSE m.conns[c]] ]
 
 (* a device-level operation (AirConditioner.refresh) built on one or more exchanges has returned:      *)
 (* e.raised = it raised; e.online = the device's online flag; e.frames = frames its exchanges returned *)
